@@ -14,13 +14,17 @@ use std::sync::Mutex;
 
 pub const PROP: &str = "C12";
 
-pub const CONTENTS: [&str; 4] = [
-    "package p; import p.B; interface A { void f(B b); }",
+pub const CONTENTS: [&str; 6] = [
+    "package p;\nimport p.B;\ninterface A {\n  void f(B b);\n}\n",
     "package p; parcelable B { int x; }",
     "package p; enum B { X, Y }",
     "this is not AIDL at all {",
+    // the same text as content 0 with CRLF line ends (same lines, other offsets)
+    "package p;\r\nimport p.B;\r\ninterface A {\r\n  void f(B b);\r\n}\r\n",
+    // starts with a byte order mark (on disk as bom.aidl): no tree
+    "\u{feff}package p; parcelable B { int x; }",
 ];
-const IDS: [&str; 5] = ["a.aidl", "b.aidl", "m.aidl", "bad.aidl", "sub"];
+const IDS: [&str; 6] = ["a.aidl", "b.aidl", "m.aidl", "bad.aidl", "sub", "bom.aidl"];
 
 #[derive(Clone, Copy, Debug, PartialEq, Eq, Hash, PartialOrd, Ord)]
 pub enum Op {
@@ -65,6 +69,7 @@ fn disk_content(id: usize) -> Option<usize> {
     match id {
         0 => Some(0),
         1 => Some(2),
+        5 => Some(5),
         _ => None,
     }
 }
@@ -72,15 +77,15 @@ fn disk_content(id: usize) -> Option<usize> {
 pub fn alphabet_a() -> Vec<Op> {
     let mut v = Vec::new();
     for id in 0..3 {
-        for c in 0..4 {
+        for c in 0..5 {
             v.push(Op::Add(id, c));
         }
     }
     v.push(Op::Add(3, 1));
-    for id in 0..5 {
+    for id in 0..6 {
         v.push(Op::AddFile(id));
     }
-    for id in 0..4 {
+    for id in [0usize, 1, 2, 3, 5] {
         v.push(Op::Remove(id));
     }
     v.push(Op::Validate);
@@ -144,6 +149,7 @@ impl Env {
         std::fs::create_dir_all(dir.join("sub")).expect("create run-private directory");
         std::fs::write(dir.join("a.aidl"), CONTENTS[0]).unwrap();
         std::fs::write(dir.join("b.aidl"), CONTENTS[2]).unwrap();
+        std::fs::write(dir.join("bom.aidl"), CONTENTS[5]).unwrap();
         std::fs::write(dir.join("bad.aidl"), [0x70u8, 0x61, 0xff, 0xfe, 0x80]).unwrap();
         Env { dir }
     }
@@ -426,21 +432,30 @@ pub fn run(tier: Tier, seed: u64) -> i32 {
     eprintln!("  tree B depth {db}: t={:.1}s", stats.elapsed());
     // (ii) from every reachable abstract state (canonical add-only history), all suffixes
     let mut states: Vec<Abs> = Vec::new();
-    for ca in 0..5usize {
-        for cb in 0..5usize {
-            for cm in 0..5usize {
+    for ca in 0..6usize {
+        for cb in 0..6usize {
+            for cm in 0..6usize {
                 for cbad in 0..2usize {
-                    let mut s = Abs::new();
-                    for (id, c) in [(0usize, ca), (1, cb), (2, cm)] {
-                        if c > 0 {
-                            s.insert(id, c - 1);
+                    for cbom in 0..2usize {
+                        let mut s = Abs::new();
+                        for (id, c) in [(0usize, ca), (1, cb), (2, cm)] {
+                            if c > 0 {
+                                s.insert(id, c - 1);
+                            }
                         }
-                    }
-                    if cbad == 1 {
-                        s.insert(3, 1);
-                    }
-                    if !pruned(&s) {
-                        states.push(s);
+                        if cbad == 1 {
+                            s.insert(3, 1);
+                        }
+                        if cbom == 1 {
+                            s.insert(5, 5);
+                        }
+                        // quick: the CRLF content and the BOM file only in states with <= 2 files
+                        if tier == Tier::Quick && s.len() > 2 && (cbom == 1 || s.values().any(|c| *c == 4)) {
+                            continue;
+                        }
+                        if !pruned(&s) {
+                            states.push(s);
+                        }
                     }
                 }
             }
@@ -484,7 +499,7 @@ pub fn run(tier: Tier, seed: u64) -> i32 {
     stats.sample(json!({"history": "add_content(a.aidl, c0); validate(); add_file(m.aidl) [missing -> Err]; add_content(a.aidl, c3)"}));
     finish(
         &stats,
-        "explicit-state exploration of operation histories on the real Parser<PathBuf>: alphabet A (23 operations: add_content 3 ids x 4 contents + one id that exists on disk as invalid UTF-8, add_file of two readable files / a missing file / a non-UTF-8 file / a directory, remove_content of 4 ids, validate), alphabet B (11 operations); full history trees from the empty parser to the stated depths and all suffixes of the stated length from every reachable abstract state; after every transition validate() of the live object is compared with validate() of a fresh parser loaded with the abstract id -> content map (trees by equality, diagnostics as position-sorted lists, id tags, add_file's error status); states = transitions executed (every node is checked), distinct_nontrivial = distinct abstract states reached",
+        "explicit-state exploration of operation histories on the real Parser<PathBuf>: alphabet A (28 operations: add_content 3 ids x 5 contents (one of them the CRLF twin of another) + one id that exists on disk as invalid UTF-8, add_file of three readable files (one under a non-canonical path, one starting with a byte order mark) / a missing file / a non-UTF-8 file / a directory, remove_content of 5 ids, validate), alphabet B (11 operations); full history trees from the empty parser to the stated depths and all suffixes of the stated length from every reachable abstract state; after every transition validate() of the live object is compared with validate() of a fresh parser loaded with the abstract id -> content map (trees by equality, diagnostics as position-sorted lists, id tags, add_file's error status); states = transitions executed (every node is checked), distinct_nontrivial = distinct abstract states reached",
         &[
             "hook H4 (derive Clone on Parser) lets the explorer branch from a live object; every violation is re-confirmed by a from-scratch replay of the plain history without clones",
             "abstract states registering one key with two kinds (c1 and c2 together) are pruned (C11's business) and counted",
